@@ -22,11 +22,15 @@ import (
 	resourcepb "go.opentelemetry.io/proto/otlp/resource/v1"
 	tracepb "go.opentelemetry.io/proto/otlp/trace/v1"
 	"google.golang.org/protobuf/proto"
+
+	"qrynverif/fakech"
 )
 
 const bigLokiLines = 180
 
 var bigLokiPad = strings.Repeat("x", 2000)
+
+func fakechTuple(a, b string) fakech.Tuple { return fakech.Tuple{a, b} }
 
 func otlpStr(k, v string) *commonpb.KeyValue {
 	return &commonpb.KeyValue{Key: k, Value: &commonpb.AnyValue{Value: &commonpb.AnyValue_StringValue{StringValue: v}}}
@@ -177,10 +181,14 @@ type Expect struct {
 	Table  string
 	Marker string // exact marker (see markerOf) or, with Prefix, its beginning
 	Prefix bool
+	// Cols are the column values the body generator knows the row must carry (decoded
+	// representation of fakech); columns it cannot know (fingerprints, re-encoded payloads)
+	// are absent. They are compared in every block that holds the row.
+	Cols map[string]any
 }
 
 // HTTPKinds lists the request builders.
-var HTTPKinds = []string{"loki", "prom", "zipkin", "profile", "otlp"}
+var HTTPKinds = []string{"loki", "prom", "zipkin", "profile", "otlp", "mixed"}
 
 // BuildHTTP builds push request number req of the given protocol with n entries spread
 // over streams series/spans. big asks for the large variant of the protocol: prom: one
@@ -218,18 +226,19 @@ func BuildHTTP(proto_ string, req, streams, n int, big bool) (*http.Request, []E
 					sb.WriteString(",")
 				}
 				line := fmt.Sprintf("L%d-s%d-%d", req, s, i)
+				tns := BaseNs + int64(req)*1e6 + int64(s)*1000 + int64(i)
 				if big {
 					// the size is accounted per line (len+26) and checked after every stream
 					line += bigLokiPad
-					exp = append(exp, Expect{Table: "samples_v3", Marker: MarkerOfLine(line)})
-				} else {
-					exp = append(exp, Expect{Table: "samples_v3", Marker: line})
 				}
-				fmt.Fprintf(&sb, `["%d","%s"]`, BaseNs+int64(req)*1e6+int64(s)*1000+int64(i), line)
+				exp = append(exp, Expect{Table: "samples_v3", Marker: MarkerOfLine(line),
+					Cols: map[string]any{"string": line, "timestamp_ns": tns, "value": float64(0), "type": uint8(1)}})
+				fmt.Fprintf(&sb, `["%d","%s"]`, tns, line)
 			}
 			sb.WriteString("]}")
 			if cnt > 0 {
-				exp = append(exp, Expect{Table: "time_series", Marker: fmt.Sprintf(`{"m":"%s"}#`, lbl), Prefix: true})
+				exp = append(exp, Expect{Table: "time_series", Marker: fmt.Sprintf(`{"m":"%s"}#`, lbl), Prefix: true,
+					Cols: map[string]any{"labels": fmt.Sprintf(`{"m":"%s"}`, lbl), "type": uint8(1), "date": dateOf(time.Unix(BaseNs/1e9, 0).UTC())}})
 			}
 		}
 		sb.WriteString("]}")
@@ -251,7 +260,8 @@ func BuildHTTP(proto_ string, req, streams, n int, big bool) (*http.Request, []E
 			for i := 0; i < cnt; i++ {
 				ms := BaseNs/1e6 + int64(req)*100000 + int64(s)*5000 + int64(i)
 				ts.Samples = append(ts.Samples, &prompb.Sample{Value: float64(req) + float64(i)/4096, Timestamp: ms})
-				exp = append(exp, Expect{Table: "samples_v3", Marker: fmt.Sprintf("t%d/", ms*1e6), Prefix: true})
+				exp = append(exp, Expect{Table: "samples_v3", Marker: fmt.Sprintf("t%d/", ms*1e6), Prefix: true,
+					Cols: map[string]any{"string": "", "timestamp_ns": ms * 1e6, "value": float64(req) + float64(i)/4096, "type": uint8(2)}})
 			}
 			wr.Timeseries = append(wr.Timeseries, ts)
 			if cnt > 0 {
@@ -278,17 +288,50 @@ func BuildHTTP(proto_ string, req, streams, n int, big bool) (*http.Request, []E
 			}
 			tr, sp := ids(req, i)
 			name := fmt.Sprintf("Z%d-%d", req, i)
-			fmt.Fprintf(&sb, `{"traceId":"%s","id":"%s","name":"%s","timestamp":%d,"duration":%d,"localEndpoint":{"serviceName":"zs%d"},"tags":{"mk":"zv%d-%d"}%s}`,
-				hex.EncodeToString(tr), hex.EncodeToString(sp), name, (BaseNs+int64(req)*1e6+int64(i)*1000)/1000, 10+i, req, req, i, bulk)
+			us := (BaseNs + int64(req)*1e6 + int64(i)*1000) / 1000
+			span := fmt.Sprintf(`{"traceId":"%s","id":"%s","name":"%s","timestamp":%d,"duration":%d,"localEndpoint":{"serviceName":"zs%d"},"tags":{"mk":"zv%d-%d"}%s}`,
+				hex.EncodeToString(tr), hex.EncodeToString(sp), name, us, 10+i, req, req, i, bulk)
+			sb.WriteString(span)
 			h := hex.EncodeToString(sp)
-			exp = append(exp, Expect{Table: "tempo_traces", Marker: h + "/" + name})
-			exp = append(exp, Expect{Table: "tempo_traces_attrs_gin", Marker: h + "/name=" + name})
-			exp = append(exp, Expect{Table: "tempo_traces_attrs_gin", Marker: fmt.Sprintf("%s/mk=zv%d-%d", h, req, i)})
-			exp = append(exp, Expect{Table: "tempo_traces_attrs_gin", Marker: fmt.Sprintf("%s/service.name=zs%d", h, req)})
+			// the stored payload is the raw span (zipkinDecoderV2.Decode keeps dec.Raw())
+			exp = append(exp, Expect{Table: "tempo_traces", Marker: h + "/" + name, Cols: map[string]any{
+				"trace_id": string(tr), "span_id": string(sp), "parent_id": "", "name": name, "timestamp_ns": us * 1000,
+				"duration_ns": int64(10+i) * 1000, "service_name": fmt.Sprintf("zs%d", req), "payload_type": int8(1), "payload": span}})
+			tag := func(k, v string) {
+				exp = append(exp, Expect{Table: "tempo_traces_attrs_gin", Marker: h + "/" + k + "=" + v, Cols: map[string]any{
+					"key": k, "val": v, "trace_id": string(tr), "span_id": string(sp), "timestamp_ns": us * 1000, "duration": int64(10+i) * 1000}})
+			}
+			tag("name", name)
+			tag("mk", fmt.Sprintf("zv%d-%d", req, i))
+			tag("service.name", fmt.Sprintf("zs%d", req))
 		}
 		sb.WriteString("]")
 		r := httptest.NewRequest("POST", "/tempo/spans", strings.NewReader(sb.String()))
 		r.Header.Set("Content-Type", "application/json")
+		return r, exp
+	case "mixed":
+		// one Influx write (one parser chunk) mixing log lines (a `message` field) and metric
+		// lines (a numeric field): log batch first when streams is odd, metric batch first
+		// otherwise; with n >= 3 a third batch of the first kind follows
+		var sb strings.Builder
+		logFirst := streams%2 == 1
+		for i := 0; i < n+1; i++ {
+			tns := BaseNs + int64(req)*1e6 + int64(i)
+			isLog := (i%2 == 0) == logFirst
+			if isLog {
+				msg := fmt.Sprintf("M%d-%d", req, i)
+				fmt.Fprintf(&sb, "mixlog%d,job=mix message=\"%s\" %d\n", req, msg, tns)
+				exp = append(exp, Expect{Table: "samples_v3", Marker: msg,
+					Cols: map[string]any{"string": msg, "timestamp_ns": tns, "value": float64(0), "type": uint8(1)}})
+			} else {
+				val := float64(req) + float64(i) + 0.25
+				fmt.Fprintf(&sb, "mixcpu%d,job=mix usage=%v %d\n", req, val, tns)
+				exp = append(exp, Expect{Table: "samples_v3", Marker: fmt.Sprintf("t%d/", tns), Prefix: true,
+					Cols: map[string]any{"string": "", "timestamp_ns": tns, "value": val, "type": uint8(2)}})
+			}
+		}
+		r := httptest.NewRequest("POST", "/influx/api/v2/write", strings.NewReader(sb.String()))
+		r.Header.Set("Content-Type", "text/plain")
 		return r, exp
 	case "otlp":
 		bulk := ""
@@ -306,10 +349,16 @@ func BuildHTTP(proto_ string, req, streams, n int, big bool) (*http.Request, []E
 				StartTimeUnixNano: start, EndTimeUnixNano: start + uint64(10+i), TraceState: bulk,
 				Attributes: []*commonpb.KeyValue{otlpStr("mk", fmt.Sprintf("ov%d-%d", req, i))}})
 			h := hex.EncodeToString(sp)
-			exp = append(exp, Expect{Table: "tempo_traces", Marker: h + "/" + name})
-			exp = append(exp, Expect{Table: "tempo_traces_attrs_gin", Marker: h + "/name=" + name})
-			exp = append(exp, Expect{Table: "tempo_traces_attrs_gin", Marker: fmt.Sprintf("%s/mk=ov%d-%d", h, req, i)})
-			exp = append(exp, Expect{Table: "tempo_traces_attrs_gin", Marker: fmt.Sprintf("%s/service.name=os%d", h, req)})
+			exp = append(exp, Expect{Table: "tempo_traces", Marker: h + "/" + name, Cols: map[string]any{
+				"trace_id": string(tr), "span_id": string(sp), "parent_id": "", "name": name, "timestamp_ns": int64(start),
+				"duration_ns": int64(10 + i), "service_name": fmt.Sprintf("os%d", req), "payload_type": int8(2)}})
+			tag := func(k, v string) {
+				exp = append(exp, Expect{Table: "tempo_traces_attrs_gin", Marker: h + "/" + k + "=" + v, Cols: map[string]any{
+					"key": k, "val": v, "trace_id": string(tr), "span_id": string(sp), "timestamp_ns": int64(start), "duration": int64(10 + i)}})
+			}
+			tag("name", name)
+			tag("mk", fmt.Sprintf("ov%d-%d", req, i))
+			tag("service.name", fmt.Sprintf("os%d", req))
 		}
 		rs.ScopeSpans = []*tracepb.ScopeSpans{ss}
 		raw, _ := proto.Marshal(&tracepb.TracesData{ResourceSpans: []*tracepb.ResourceSpans{rs}})
@@ -351,7 +400,13 @@ func BuildHTTP(proto_ string, req, streams, n int, big bool) (*http.Request, []E
 		q := url.Values{"from": {fmt.Sprint(from)}, "until": {fmt.Sprint(from + 10)}, "name": {name}}
 		r := httptest.NewRequest("POST", "/ingest?"+q.Encode(), &body)
 		r.Header.Set("Content-Type", mw.FormDataContentType())
-		exp = append(exp, Expect{Table: "profiles_input", Marker: svc + "/process_cpu/", Prefix: true})
+		pc := map[string]any{"service_name": svc, "type": "process_cpu", "period_type": "cpu", "period_unit": "nanoseconds",
+			"timestamp_ns": uint64(from) * 1e9, "duration_ns": uint64(10) * 1e9,
+			"sample_types_units": []any{fakechTuple("cpu", "nanoseconds")}}
+		if !big {
+			pc["tags"] = []any{fakechTuple("k", fmt.Sprintf("v%d", req))}
+		}
+		exp = append(exp, Expect{Table: "profiles_input", Marker: svc + "/process_cpu/", Prefix: true, Cols: pc})
 		return r, exp
 	}
 	return nil, nil
